@@ -278,12 +278,12 @@ q, t = std_stages('filter', 3000, 150000)
 q['stages'].append(dict(engine='rc', harness='filter', variant='clang4', procs=8, cases=1200, timeout=900))
 t['stages'].append(dict(engine='rc', harness='filter', variant='clang4', procs=16, cases=50000, timeout=3600))
 prop('C12', 'exploration',
-     'rapidcheck-generated histories of appendFilter/removeFilter (also from inside filters and listeners), listener changes and dispatches, direct and queued, over 12 subjects: EventDispatcher by-value prototype, '
-     'EventQueue with reference prototype (only the second argument rewritable), MixinFilter followed / preceded by a counting user mixin (once with a variadic template hook, once with an ordinary member hook taking non-const references), HeterEventDispatcher and HeterEventQueue with MixinHeterFilter, a canContinueInvoking '
+     'rapidcheck-generated histories of appendFilter/removeFilter (also from inside filters and listeners), listener changes and dispatches, direct and queued, over 14 subjects: EventDispatcher by-value prototype, '
+     'EventQueue with reference prototype (only the second argument rewritable), MixinFilter followed / preceded by a counting user mixin (once with a variadic template hook, once with an ordinary member hook taking non-const references), MixinFilter followed by a user mixin without any interceptor (dispatcher and queue; the same mixin in front of MixinFilter is known finding E15 and only replayed), HeterEventDispatcher and HeterEventQueue with MixinHeterFilter, a canContinueInvoking '
      'policy on void(Ev&), a canContinueInvoking policy and conditionalFunctor conditions taking movable arguments by value, and argumentAdapter down-casts (Derived& from Base&, shared_ptr<Derived> from shared_ptr<Base>); listeners plain, conditionalFunctor-wrapped and argumentAdapter-wrapped (arithmetic conversions); '
      'oracle = filter-chain model (insertion order, shared mutable arguments, first false stops filters and listeners of that dispatch only, removed filters never run) in lock-step with argument comparison at every filter, '
      'condition and listener; non-trivial = (>=2 filters with a rewriting filter followed by a block) or a stop by canContinueInvoking or an adapter-wrapped listener',
-     COMMON_ASSUME + ['subjects are the 12 rows of the configuration table', 'routing uses the event computed before the filters run (rewriting the key argument does not re-route): filters only use the exclude-event form',
+     COMMON_ASSUME + ['subjects are the 14 rows of the configuration table', 'routing uses the event computed before the filters run (rewriting the key argument does not re-route): filters only use the exclude-event form',
                       'HeterEventQueue with MixinHeterFilter does not compile for queued dispatch (stored arguments are const): heterogeneous filters are exercised on direct dispatch only'],
      q, t)
 
@@ -325,7 +325,7 @@ prop('C20', 'exploration',
      'rapidcheck-generated flat programs (listener changes, dispatch and enqueue with lvalue and temporary keys/arguments, process/processOne/processIf/processUntil/takeEvent/peekEvent/emptyQueue/waitFor(0), copy- and move-construction of the '
      'queue over pre-filled placement storage followed by an immediate emptyQueue/waitFor, listeners that append a further listener each time they run) interpreted for 8 policy instantiations (Threading Multiple/SpinLock/Single x Map auto/std::map/unordered_map/user map x Callback '
      'std::function/custom functor x ArgumentPassing auto/include/exclude x key int/std::string) and compared with a built-in reference model; the first programs of the run are dumped and re-run by stand-alone builds of the '
-     'same C++11-clean source with g++ and clang++, -O0 and -O2, -std=c++11..20 (quick: 4 builds, thorough: 16) with two storage fill patterns; non-trivial = a temporary key/argument or an object constructed over non-zero storage and queried before any write',
+     'same C++11-clean source with g++ and clang++, -O0 and -O2, -std=c++11..20 (quick: 4 builds, thorough: 16) with two storage fill patterns; in every build and for every fill pattern an object sweep first constructs each class of the library (the lock itself, CallbackList, EventDispatcher, EventQueue, the three heterogeneous classes, ScopedRemover for four targets, CounterRemover; default / from target / copy / move) over pre-filled storage under the three threading policies and compares a fixed probe with the reference, an endless spin of a SpinLock being detected through the hook in its loop; non-trivial = a temporary key/argument or an object constructed over non-zero storage and queried before any write',
      COMMON_ASSUME + ['"any conforming compiler" is g++ 12 and clang++ 14; sanitizer builds are not part of the matrix (the generating build is clang++ ASan/UBSan)',
                       'operations a policy cannot compile (waitFor with SingleThreading or SpinLock + std::condition_variable) are skipped for that instantiation in both model and implementation'],
      q, t,
